@@ -1006,6 +1006,14 @@ where
                 }
             };
 
+            // Without any sub-command nothing below would ever answer the request.
+            if cmds.is_empty() {
+                cmd_ctx.set_resp_result(Ok(Resp::Error(
+                    b"ERR invalid key argument".to_vec(),
+                )));
+                return reply_receiver.await;
+            }
+
             for (key, non_blocking_cmd) in cmds.into_iter() {
                 let (sub_cmd_ctx, fut) =
                     factory.create_with_ctx(cmd_ctx.get_context(), non_blocking_cmd);
